@@ -379,17 +379,23 @@ func (r *Report) writeEvidence(path string, seed int64, checkerCmd string, nviol
 	}
 	if len(r.Mutants) > 0 {
 		cov["mutants"] = r.Mutants
-		k, s := 0, 0
+		k, s, bs, ba := 0, 0, 0, 0
 		for _, m := range r.Mutants {
 			switch m.Status {
 			case "killed":
 				k++
 			case "survived":
 				s++
+			case "silent":
+				bs++
+			case "false-alarm":
+				ba++
 			}
 		}
 		cov["mutants_killed"] = k
 		cov["mutants_survived"] = s
+		cov["refactors_silent"] = bs
+		cov["refactors_false_alarm"] = ba
 	}
 	ev := map[string]any{
 		"property_id": r.Property,
